@@ -202,6 +202,20 @@ func (w *world) alphabet(profile string) []letter {
 			}
 		}
 	}
+	if w.opts.GovMetadata {
+		// proposals with metadata (valid, title too short, description only) next to the ones without
+		k := w.keys
+		mk := func(name string, md *governance.ProposalMetadata) letter {
+			c := governance.ProposalContent{Metadata: md, CancelUpgrade: &governance.CancelUpgradeProposal{ProposalID: 1}}
+			return letter{Name: name, Txs: []txT{{Name: name, Signer: k.Entities[0], Method: governance.MethodSubmitProposal, Body: c}}}
+		}
+		ls = append(ls, mk("gov-submit-cancel(e0,with title)", &governance.ProposalMetadata{Title: "a proposal title", Description: "d"}),
+			mk("gov-submit-cancel(e0,empty title)", &governance.ProposalMetadata{}), mk("gov-submit-cancel(e0,no metadata)", nil),
+			letter{Name: "gov-vote(a0 no entity,#1)", Txs: []txT{{Name: "gov-vote(a0,#1)", Signer: k.Accounts[0], Method: governance.MethodCastVote, Body: governance.ProposalVote{ID: 1, Vote: governance.VoteYes}}}})
+		up := governance.ProposalContent{Metadata: &governance.ProposalMetadata{Title: "upgrade with a title"}, Upgrade: &governance.UpgradeProposal{Descriptor: upgrade.Descriptor{
+			Versioned: cbor.NewVersioned(upgrade.LatestDescriptorVersion), Handler: "verif-handler", Target: version.Versions, Epoch: beacon.EpochTime(40)}}}
+		ls = append(ls, letter{Name: "gov-submit-upgrade(e0,with title)", Txs: []txT{{Name: "gov-submit-upgrade(e0,with title)", Signer: k.Entities[0], Method: governance.MethodSubmitProposal, Body: up, FeeAmt: 1}}})
+	}
 	if w.opts.VRF {
 		ls = append(ls, vrfLetters()...)
 	}
